@@ -3,6 +3,7 @@ import glob
 import hashlib
 import json
 import os
+import re
 
 import gv
 import hist
@@ -48,6 +49,12 @@ class BaseProp:
 
     def classify_known(self, case, descr, known):
         return None
+
+    def classify_diff(self, case, descr):
+        """label of a model/implementation difference: "counterexample" when the differing observable is
+        one the property statement fixes, "model-mismatch" when it is not (the correspondence is broken
+        but the property may still hold)"""
+        return self.diff_kind
 
     def shrink_candidates(self, c):
         return []
@@ -117,7 +124,8 @@ class BaseProp:
             n, diffs, errs = gv.correspond(self.run_module, cases, impl, wd, self.to_coq, shards=self.shards)
             res["corr_errors"] += errs
             for c, d in diffs:
-                res["failing"].append((c, "implementation differs from the model: " + str(d), self.diff_kind))
+                res["failing"].append((c, "implementation differs from the model: " + str(d),
+                                       self.classify_diff(c, str(d))))
         for c in cases:
             if c["id"] in impl:
                 for msg in self.oracle(c, impl[c["id"]]):
@@ -196,6 +204,15 @@ def _tup(x):
 class HistProp(BaseProp):
     run_module = "Run.RunHist"
     harness_mode = "hist"
+    # observation kinds that show private indexes only (hook snapshot): a difference there breaks the
+    # correspondence but is not by itself a violation of a property about the public API
+    internal_kinds = {1010, 1011, 1012, 1013, 1014, 1015, 1017, 1018, 16, 19, 1016, 1019}
+
+    def classify_diff(self, case, descr):
+        m = re.search(r"kind (\d+)", descr)
+        if m and int(m.group(1)) in self.internal_kinds:
+            return "model-mismatch"
+        return "counterexample"
 
     def __init__(self, pid, kind, quick_n, thorough_n, rule):
         self.id, self.kind = pid, kind
@@ -291,6 +308,8 @@ for _f in sorted(glob.glob(os.path.join(os.path.dirname(os.path.abspath(__file__
 # C03: traversal lists vs edge store (oracle independent of the Coq model)
 # ------------------------------------------------------------------------------------------
 class C03Prop(HistProp):
+    internal_kinds = {1010, 1011, 1012, 1013, 1014, 1015, 1017, 1018}
+
     def oracle(self, c, o):
         """after every call: successors_vec / predecessors_vec (hook snapshot) must equal the
         adjacency rebuilt from get_all_nodes()/get_all_edges() alone, weight = min of the pair's edges"""
@@ -672,7 +691,7 @@ C09.manifest = {
 
 
 class C15Prop(HistProp):
-    pass
+    internal_kinds = {1010, 1011, 1012, 1013, 1014, 1015, 1017, 1018}
 
 
 C15 = register(C15Prop(
